@@ -46,7 +46,15 @@ Theorem C19_plain_cmp_total_order :
   (forall a b : key, cmp_of plain a b = Eq <-> fst a = fst b).
 Proof. split; [exact plain_cmp_antisym|]. split; [exact plain_cmp_trans|exact plain_cmp_eq_iff]. Qed.
 Print Assumptions C19_plain_cmp_total_order.
-(* PARTIAL: for integer, real-number and compound keys antisymmetry / transitivity / equal-iff-identical / agreement with
+(* integer keys: a total preorder on arbitrary stored bytes, and numeric order on valid encodings *)
+Theorem C19_intkey_cmp_order :
+  (forall a b : key, cmp_of vnummode a b = CompOpp (cmp_of vnummode b a)) /\
+  (forall a b c : key, cmp_of vnummode a b = Lt -> cmp_of vnummode b c = Lt -> cmp_of vnummode a c = Lt) /\
+  (forall x y : Z, 0 <= x < 2 ^ 63 -> 0 <= y < 2 ^ 63 ->
+     (cmp_of vnummode (set_vnum64 x, 0) (set_vnum64 y, 0) = Lt <-> x > y)).
+Proof. split; [exact vnum_cmp_antisym|]. split; [exact vnum_cmp_trans|exact vnum_cmp_numeric]. Qed.
+Print Assumptions C19_intkey_cmp_order.
+(* PARTIAL: for real-number and compound keys antisymmetry / transitivity / equal-iff-identical / agreement with
    numeric order / agreement of the cached 115-byte prefix are decided on key triples by the oracle of checks/C19.py
    (model Keys.v compared with the implementation's static comparators), not proved. *)
 
